@@ -47,6 +47,6 @@ func TestVerif_WriteBack(t *testing.T) {
 	r := vkit.Start(t, "C15", "write-back", "exploration", rule)
 	r.Assume("bounded liveness in virtual time: 2 x RetryBackoffMax + (objects+5) x (limiter interval + 35 ms) + 1 s after failures and changes stop", "the reconciler is driven through hive's job group inside a synctest bubble; real-timer behaviour is out of scope")
 	r.Require("operation_attempts", "failed_attempts", "user_writes", "prune_calls")
-	run(t, r, vkit.N(600, 40000), map[string]bool{"status": true}, false)
+	run(t, r, vkit.N(6000, 120000), map[string]bool{"status": true}, false)
 	r.Finish()
 }
